@@ -5,6 +5,8 @@ import multiprocessing
 import os
 import random
 
+import math
+
 import numpy
 
 from lib import common as C
@@ -342,6 +344,15 @@ def classify(req, out):
       sig = f"C01:{ep}:raises:{out['error']}"
     return dict(signature=sig, what=f"{ep} endpoint raised {out['error']}: {out.get('message', '')}", input=req, observed=out,
                 expected="a response with admissible points", oracle="no exception on a valid request")
+  for opts, p in out.get("weighted_draws") or []:
+    # every weighted draw of a model-based endpoint is the task draw: over the task options, with probability proportional to exp(-cost)
+    tk = sorted(float(t) for t in (out["task_options"] or []))
+    w = [math.exp(-c) for c in opts]
+    want = [x / sum(w) for x in w]
+    if sorted(opts) != tk or len(p) != len(want) or any(abs(a - b) > 1e-12 for a, b in zip(p, want)):
+      return dict(signature=f"C01:{ep}:task-draw-not-softmax-of-negative-cost", what=f"{ep} endpoint: the task is not drawn over the task options with probability "
+                  "proportional to exp(-cost)", input=req, observed=dict(options=opts, probabilities=p), expected=dict(options=tk, probabilities=want),
+                  oracle="parameters of the weighted draw against exp(-c) / sum exp(-c)")
   bad = U.check_response(dict(req, task_options=out["task_options"]), out)
   if bad:
     return dict(signature=f"C01:{ep}:{bad[0]}", what=f"{ep} endpoint: {bad[0]} {bad[1]}", input=req, observed=out,
